@@ -507,6 +507,7 @@ type SiteSpec struct {
 	Asserts []Clause
 	Ghost   []GhostUpd
 	Uses    []Clause // lemma applications: Name(args...)
+	Assumes []Clause // assumed facts about the effect of an extern call (listed in evidence)
 	Order   []SiteAction // all of the above in textual order
 }
 
@@ -538,6 +539,7 @@ type SpecFunc struct {
 	Body   Expr
 	Text   string
 	Pkg    string
+	Abstract bool // uninterpreted: no body
 }
 
 type Lemma struct {
@@ -810,6 +812,8 @@ func (cs *ContractSet) loadContractFile(path, pkgPath string) error {
 				var what string
 				if i := strings.Index(rest, " assert "); i >= 0 {
 					idx, what = i, "assert"
+				} else if i := strings.Index(rest, " assume "); i >= 0 {
+					idx, what = i, "assume"
 				} else if i := strings.Index(rest, " use "); i >= 0 {
 					idx, what = i, "use"
 				} else if i := strings.Index(rest, " ghost "); i >= 0 {
@@ -836,6 +840,13 @@ func (cs *ContractSet) loadContractFile(path, pkgPath string) error {
 					}
 					ss.Asserts = append(ss.Asserts, c)
 					ss.Order = append(ss.Order, SiteAction{"assert", len(ss.Asserts) - 1})
+				} else if what == "assume" {
+					c, err := mkClause(body, ln.no)
+					if err != nil {
+						return err
+					}
+					ss.Assumes = append(ss.Assumes, c)
+					ss.Order = append(ss.Order, SiteAction{"assume", len(ss.Assumes) - 1})
 				} else if what == "use" {
 					// lemma names may contain '-': normalise for the expression parser
 					c, err := mkClause(strings.Replace(body, "-", "_", strings.Count(body[:strings.Index(body+"(", "(")], "-")), ln.no)
@@ -883,10 +894,16 @@ func parseSpec(rest string) (*SpecFunc, error) {
 			break
 		}
 	}
+	abstract := false
 	if eq < 0 {
-		return nil, fmt.Errorf("spec: missing =")
+		// abstract (uninterpreted) spec function: only its signature is given
+		abstract = true
+		eq = len(rest)
 	}
-	head, body := strings.TrimSpace(rest[:eq]), strings.TrimSpace(rest[eq+1:])
+	head, body := strings.TrimSpace(rest[:eq]), ""
+	if !abstract {
+		body = strings.TrimSpace(rest[eq+1:])
+	}
 	toks, err := lex(head)
 	if err != nil {
 		return nil, err
@@ -924,6 +941,10 @@ func parseSpec(rest string) (*SpecFunc, error) {
 		return nil, err
 	}
 	sf.Result = ty
+	if abstract {
+		sf.Abstract = true
+		return sf, nil
+	}
 	sf.Body, err = parseExpr(body)
 	if err != nil {
 		return nil, err
